@@ -314,7 +314,7 @@ def renaming_domain(source: str, reserved: Reserved) -> dict[str, str]:
 	vocab = emitter_vocabulary()
 	strings = data_string_words(source)
 	derived = prefix_aliased(source)
-	return {n: k for n, k in user_identifiers(source).items() if not reserved.is_reserved(n, k) and n not in vocab and n not in strings and n not in derived}
+	return {n: k for n, k in user_identifiers(source).items() if not reserved.is_reserved(n) and n not in vocab and n not in strings and n not in derived}
 
 
 # ---------------------------------------------------------------------------------------------
@@ -1098,7 +1098,9 @@ def generate_spelling(rng: random.Random, slots: dict[str, str] | None = None, a
 	table. Receivers: a parameter, a local built by the constructor, a field of another object, `self`, a constructor call.
 	No library container method is used, so every member token of the program and of its output is the user's."""
 	r = rng
-	names = dict(slots) if slots else dict(zip(('pairs', 'nums', 'calc', 'text', 'field'), r.sample([p for p in PLAIN_MEMBERS if p not in avoid], 5)))
+	plain = [p for p in PLAIN_MEMBERS if p not in avoid]
+	plain += [f'member_{i}q' for i in range(5 - len(plain))]   # never short of names, whatever the emitter's vocabulary grows to
+	names = dict(slots) if slots else dict(zip(('pairs', 'nums', 'calc', 'text', 'field'), r.sample(plain, 5)))
 	cls, holder = r.choice([('Bag', 'Shelf'), ('Sack', 'Rack'), ('Pouch', 'Crate')])
 	obj, other = r.choice([('bag', 'shelf'), ('sack', 'rack'), ('it', 'outer')])
 	P, N, C, T, F = names['pairs'], names['nums'], names['calc'], names['text'], names['field']
